@@ -291,6 +291,8 @@ def _dict(ex, args, kw):
         return VMap(m.k, m.v, m.present, list(m.arrs))
     if not args:
         return VDict([(VStr(k), v) for k, v in kw.items()])
+    if isinstance(args[0], VRef) and args[0].sort == "Opaque" and not kw:
+        return args[0]      # a copy of an opaque mapping: still opaque (content never inspected by the verified code)
     raise OutOfSubset("dict(...)")
 
 
